@@ -65,7 +65,7 @@ def api_items(entries, thorough):
     std = scripts.std_cfgs()
     agent = ag.Agent()
     items = []
-    step = 47 if not thorough else 3
+    step = 47 if not thorough else 9
     for ci, cn in enumerate(["v2c", "v1", "v3-md5"]):
         for ei, e in enumerate(entries):
             small = len(e["vbs"]) <= 1                # the replies a real agent sends to a get: all of them, through both clients
